@@ -112,7 +112,7 @@ PROPS = {
 
  "C20": dict(
   families=[dict(name="clone", model="marshal", quick=2500, thorough=60000)],
-  rule="Schema trees from G-schema-go (depth 3, every field class) with extra subschemas forced under additionalItems, schema-valued dependencies, array-form items, definitions, contentSchema, propertyNames, dependentSchemas, unevaluatedItems; nil and empty containers included; laws evaluated on the package: clone marshals to the same bytes, no *Schema is shared (pointer sets computed by walking every struct field by type), original+clone under one allOf parent resolves exactly when the original does, scribbling over every object of either tree leaves the other's bytes unchanged; non-trivial: >= 3 Schema objects; distinct by (object count, output hash)",
+  rule="Schema trees from G-schema-go (depth 3, every field class) with extra subschemas forced under additionalItems, schema-valued dependencies, array-form items, definitions, contentSchema, propertyNames, dependentSchemas, unevaluatedItems; nil and empty containers included; laws evaluated on the package: clone marshals to the same bytes, no *Schema is shared (pointer sets computed by walking every struct field by type), original+clone under one allOf parent resolves exactly when the original does and the original twice under one parent never resolves, scribbling over every object of either tree leaves the other's bytes unchanged; non-trivial: >= 3 Schema objects; distinct by (object count, output hash)",
   trusted_base=["the correspondence between the heap model's kids list and reflection over schemaFieldInfos (tied by the field-class obligation and by the laws)", "encoding/json for the byte comparison"],
   assumptions=["trees only: Marshal and CloneSchemas on cyclic graphs overflow the stack and are outside the claimed entry points"],
  ),
